@@ -41,6 +41,10 @@ pub fn exec(rec: &Value, _st: &mut State) -> Value {
                 };
                 let mx = match max_intersection(&line, &ray) { None => json!({"some": false, "tq": 0}), Some(t) => json!({"some": true, "tq": q.q(t / s, QT)}) };
                 let far = q.q(farthest_point_direction_distance(&line, &ray) / s, QT);
+                // the same answer through the Curve2 route: farthest vertex in the direction, as a projected distance from the origin
+                let spn0 = SurfacePoint2::new_normalize(origin, dir);
+                let far_c = q.q(curve.max_dist_in_direction(&spn0) / s, QT);
+                let far_p = match curve.max_point_in_direction(&dir) { Some((_, p)) => q.q(spn0.scalar_projection(&p) / s, QT), None => q.q(f64::NAN, QT) };
                 // intersection of a surface point's normal line with the curve: unit direction, parameters are distances
                 let spn = SurfacePoint2::new_normalize(origin, dir);
                 let sints: Vec<i64> = curve.intersection(&spn).iter().map(|t| q.q(*t / s, QT)).collect();
@@ -49,7 +53,7 @@ pub fn exec(rec: &Value, _st: &mut State) -> Value {
                 let rd = engeom::geom2::Iso2::rotation(std::f64::consts::FRAC_PI_2) * Vector2::new(d[1] as f64, -(d[0] as f64));
                 let rray = Ray::new(origin, rd);
                 let rints: Vec<Vec<i64>> = polyline_intersections(&line, &rray).iter().map(|(t, i)| vec![q.q(*t / s, QT), *i as i64]).collect();
-                outs.push(json!({"ints": ints, "cints": cints, "span": sp, "cspan": csp, "max": mx, "far": far, "sints": sints, "rints": rints}));
+                outs.push(json!({"ints": ints, "cints": cints, "span": sp, "cspan": csp, "max": mx, "far": far, "far_c": far_c, "far_p": far_p, "sints": sints, "rints": rints}));
             }
             json!({"c": outs, "finite": q.finite})
         }
